@@ -257,8 +257,11 @@ func (cfg *Config) saveFile() (returnErr error) {
 		}
 		cfg.content[configFieldCredentialsStore] = credsStoreBytes
 	} else {
-		// omit empty
-		delete(cfg.content, configFieldCredentialsStore)
+		// omit empty, but leave an empty value of the loaded file as it is
+		var loaded string
+		if raw, ok := cfg.content[configFieldCredentialsStore]; !ok || json.Unmarshal(raw, &loaded) != nil || loaded != "" {
+			delete(cfg.content, configFieldCredentialsStore)
+		}
 	}
 	authsBytes, err := json.Marshal(cfg.authsCache)
 	if err != nil {
